@@ -150,6 +150,9 @@ type Compiler struct {
 	// evaluation for configd:must statements when using tools that are run
 	// without custom function plugins present (eg yangc / DRAM).
 	userFnChecker xpath.UserCustomFunctionCheckerFn
+	// Typedefs currently being resolved by BuildBaseType, used to detect
+	// typedefs that refer (directly or indirectly) to themselves.
+	typedefsInProgress map[parse.Node]struct{}
 }
 
 const (
@@ -2399,6 +2402,15 @@ func (c *Compiler) BuildBaseType(
 		return c.makeBuiltinType(cfgNode, typ, tname.Local, def, hasDef, parentStatus), tname, true
 	}
 	c.assertReferenceStatus(typ, refType, parentStatus)
+
+	if _, ok := c.typedefsInProgress[refType]; ok {
+		c.error(typ, fmt.Errorf("typedef cyclic reference: %s", typeName))
+	}
+	if c.typedefsInProgress == nil {
+		c.typedefsInProgress = make(map[parse.Node]struct{})
+	}
+	c.typedefsInProgress[refType] = struct{}{}
+	defer delete(c.typedefsInProgress, refType)
 
 	typ2 := refType.ChildByType(parse.NodeTyp)
 	tdef := refType.Def()
